@@ -363,6 +363,10 @@ impl Prop for C03 {
         let it2 = nodes2.into_iter().map(move |node| AstCase { node, flags: String::new(), inputs: Inputs::Lit(inputs2.clone()) });
         vec![("exhaustive-group-nesting".into(), scope, Box::new(it)), ("exhaustive-groups-in-loops".into(), scope2, Box::new(it2))]
     }
+    fn extra(&self, ctx: &mut Ctx) -> Vec<(String, Verdict, Option<AstCase>)> {
+        // the target `spans` also compares every group's text on the reference's matches
+        super::c01::lang_campaign("C03", "spans", ctx, &|case, ctx| check_captures("C03", case, ctx))
+    }
     fn parts(&self, tier: Tier) -> Vec<Part<AstCase>> {
         let mut cfg = capture_cfg();
         cfg.cap = true;
